@@ -187,26 +187,17 @@ def parse_behaviour(path):
     return out
 
 
-def validate_events(module, cfg, events, shards=None, timeout=3600, extra_env=None, per_trace=False):
-    """Batch trace validation (code -> spec).  `events` is a list (of events, or of traces when per_trace) that is
-    split into shards; each shard is validated by one single-worker TLC run (TLCSet/TLCGet registers need
-    -workers 1), shards run in parallel.  Returns (accepted, rejects, results) with rejects = [(global_index, info)]."""
+def validate_payloads(module, cfg, payloads, timeout=3600, extra_env=None):
+    """payloads: list of (offset, json_object, count).  Each is written to a scratch file and validated by one
+    single-worker TLC run (TLCSet/TLCGet registers need -workers 1); runs go in parallel.  The trace spec must print
+    <<"ACCEPTED", k, total>> once and <<"REJECT", index, ...>> per rejected item; accepted + rejected must equal count."""
     import json, concurrent.futures as cf
-    n = len(events)
-    if n == 0:
-        return 0, [], []
-    if shards is None:
-        shards = max(1, min(16, n // 200))
-    size = (n + shards - 1) // shards
     jobs = []
-    for s in range(shards):
-        part = events[s * size:(s + 1) * size]
-        if not part:
-            continue
-        path = os.path.join(scratch(), 'trace-%s-%d-%d.json' % (os.path.basename(module)[:-4], int(time.time() * 1e6) % 10**9, s))
+    for s_, (off, obj, cnt) in enumerate(payloads):
+        path = os.path.join(scratch(), 'trace-%s-%d-%d.json' % (os.path.basename(module)[:-4], int(time.time() * 1e6) % 10**9, s_))
         with open(path, 'w') as f:
-            json.dump(part, f)
-        jobs.append((s * size, path, len(part)))
+            json.dump(obj, f)
+        jobs.append((off, path, cnt))
 
     def one(job):
         off, path, cnt = job
@@ -232,9 +223,28 @@ def validate_events(module, cfg, events, shards=None, timeout=3600, extra_env=No
     accepted = 0
     rejects = []
     results = []
+    if not jobs:
+        return 0, [], []
     with cf.ThreadPoolExecutor(max_workers=min(16, len(jobs))) as ex:
         for acc, rej, r in ex.map(one, jobs):
             accepted += acc
             rejects += rej
             results.append(r)
     return accepted, rejects, results
+
+
+def validate_events(module, cfg, events, shards=None, timeout=3600, extra_env=None, per_trace=False):
+    """Batch trace validation (code -> spec).  `events` is a list (of events, or of traces when per_trace) that is
+    split into shards validated in parallel.  Returns (accepted, rejects, results), rejects = [(global_index, info)]."""
+    n = len(events)
+    if n == 0:
+        return 0, [], []
+    if shards is None:
+        shards = max(1, min(16, n // 200))
+    size = (n + shards - 1) // shards
+    payloads = []
+    for s_ in range(shards):
+        part = events[s_ * size:(s_ + 1) * size]
+        if part:
+            payloads.append((s_ * size, part, len(part)))
+    return validate_payloads(module, cfg, payloads, timeout=timeout, extra_env=extra_env)
